@@ -44,7 +44,8 @@ RULE = ("each run draws a lattice and (magnetic) point group, a grid compatible 
 PROBES = ["engine_klist", "engine_tetra", "engine_run", "initial_grids_checked", "divides_checked", "merges_checked",
           "merge_removed_points", "merge_into_old_point", "merge_among_new_points", "sibling_merge", "pickle_roundtrip",
           "non_periodic_direction", "dead_point_divided", "tetra_sets_checked", "tetra_divides_checked", "tetra_unimodular",
-          "tetra_trigonal", "tetra_constructor_split", "aniso_mesh", "merge_different_cell_size"]
+          "tetra_trigonal", "tetra_constructor_split", "aniso_mesh", "merge_different_cell_size", "deep_history",
+          "cell_below_1e-3"]
 REAL = ["Grid.get_K_list", "KpointBZparallel.divide/absorb/equiv/star", "exclude_equiv_points", "PointGroup.star",
         "GridTetra / GridTrigonal constructor splitting", "KpointBZtetra.divide", "run_grid.run (engine run)"]
 STUB = ["calculators (stub payload steering the refinement) in engine run", "the harness's own group matrices as reference model"]
@@ -112,15 +113,27 @@ def _klist(dec, rec, tier):
         return _finish(base, hist, v)
     nsteps = dec("cfg/nsteps", (12 if thorough else 6) + 1)
     periodic = np.array(sym["periodic"], dtype=bool)
+    # "deep" histories keep refining the cells created last, so that the cell size falls far below every tolerance used
+    # for comparing k-points (what a hot spot does in run()); the other histories pick any live point
+    deep = bool(dec.chance("cfg/deep", 1, 3))
+    if deep:
+        rec.fire("deep_history")
+        nsteps = max(nsteps, 4)
     _mark_evaluated(K_list)
+    newest = []
     for step in range(nsteps):
-        nsel = 1 + dec(f"h/{step}/nsel", 4)
-        mesh = [[2, 3, 4][dec.pick(f"h/{step}/mesh/{i}", [4, 2, 1])] for i in range(3)]
+        nsel = 1 + dec(f"h/{step}/nsel", 2 if deep else 4)
+        mesh = [[2, 3, 4, 5][dec.pick(f"h/{step}/mesh/{i}", [4, 2, 1, 1] if not deep else [1, 2, 3, 2])] for i in range(3)]
         if dec.chance(f"h/{step}/iso", 2, 3):
             mesh = [mesh[0]] * 3
         else:
             rec.fire("aniso_mesh")
         live = [i for i, K in enumerate(K_list) if K.factor > 0]
+        if deep and newest:
+            ids_new = {id(K) for K in newest}
+            cand = [i for i in live if id(K_list[i]) in ids_new]
+            if cand:
+                live = cand
         sel = []
         for s in range(nsel):
             if dec.chance(f"h/{step}/dead/{s}", 1, 12):
@@ -146,6 +159,7 @@ def _klist(dec, rec, tier):
             if v:
                 return _finish(base, hist, (v[0], f"step {step}: " + v[1]))
             K_list += children
+        newest = list(K_list[l1:])
         if use_sym:
             before = O.snap_list(K_list)
             nnew = len(K_list) - l1
@@ -164,6 +178,9 @@ def _klist(dec, rec, tier):
         v = O.check_total(K_list, f"after step {step}")
         if v:
             return _finish(base, hist, v)
+        live_dK = [float(np.min(K.dK[periodic])) for K in K_list if K.factor > 0] if np.any(periodic) else [1.0]
+        if live_dK and min(live_dK) < 1e-3:
+            rec.fire("cell_below_1e-3")
         _mark_evaluated(K_list)
         if dec.chance(f"h/{step}/pickle", 1, 4):
             # the restart path: append-only chunks, reloaded, weights re-applied from the stored factors
